@@ -976,3 +976,43 @@ def W_ctor_ext(ctx, crates):
                     ctx.ob(rule, "%s:%s" % (cname, b.qual), False, where=b.where(t.get("loc")), expected="no caller of Bdd::node in bin/server",
                            found=b.path, kind="unreviewed")
     ctx.ob(rule, "census", n > 100, expected="call sites examined", found=n, nontrivial=False, kind="floor")
+
+
+def R_new(ctx, lib, rule="C06.R-new"):
+    ctx.rule(rule, "Bdd::new: nodes = [BddNode{Var::BOT, BOT, BOT}, BddNode{Var::TOP, TOP, TOP}] in this order (handle 0 = false, handle 1 = true), empty unique table and "
+                   "memo tables, two empty supports; the constant nodes are never sent")
+    try:
+        b = lib.one("obdd::Bdd::new")
+    except LookupError as e:
+        ctx.lost(rule, "Bdd::new", str(e))
+        return
+    eng = ctx.engine([lib])
+    paths = [p for p in eng.summarise(b, []) if p.end == "return"]
+    ctx.ob(rule, "paths", len(paths) >= 1, where=b.where(), expected="returns", found=len(paths))
+    bot = mk_adt(BDDNODE, "BddNode", [("var", shared.var_of(vint(VAR_BOT))), ("lo", T0), ("hi", T0)])
+    top = mk_adt(BDDNODE, "BddNode", [("var", shared.var_of(vint(VAR_TOP))), ("lo", T1), ("hi", T1)])
+    for p in paths:
+        r = strip(p.ret)
+        if not (r[0] == "adt" and r[1].endswith("obdd::Bdd")):
+            ctx.cannot(rule, "shape", "a Bdd aggregate", b.where(), show(r)[:200])
+            continue
+        nodes = symx.adt_get(r, "nodes")
+        arrs = symx.find_all(nodes, lambda n_: n_[0] == "app" and n_[1] == "array")
+        ok = len(arrs) == 1 and tuple(deep_strip(x) for x in arrs[0][2]) == (bot, top)
+        ctx.ob(rule, "constant-nodes", ok, where=b.where(), expected="[bot_node, top_node]", found=[show(deep_strip(x)) for x in arrs[0][2]] if arrs else show(nodes)[:200])
+        cache = strip(symx.adt_get(r, "cache"))
+        ctx.ob(rule, "empty-unique-table", is_call(cache, "HashMap::new"), where=b.where(), expected="cache: HashMap::new()", found=show(cache)[:100])
+        for memo in ("ite_cache", "restrict_cache"):
+            mv = strip(symx.adt_get(r, memo))
+            ctx.ob(rule, "empty-" + memo, is_call(mv, "HashMap::new"), where=b.where(), expected="HashMap::new()", found=show(mv)[:100])
+        vd = symx.adt_get(r, "var_deps")
+        if vd is not None:
+            a2 = symx.find_all(vd, lambda n_: n_[0] == "app" and n_[1] == "array")
+            ok2 = len(a2) == 1 and len(a2[0][2]) == 2 and all(is_call(deep_strip(x), "HashSet::new") for x in a2[0][2])
+            ctx.ob(rule, "empty-supports", ok2, where=b.where(), expected="var_deps: [{}, {}]", found=show(vd)[:160])
+        for ch in ("sender", "receiver"):
+            cv = symx.adt_get(r, ch)
+            if cv is not None:
+                ctx.ob(rule, "no-" + ch, strip(cv)[0] == "adt" and strip(cv)[2] == "None", where=b.where(), expected="None", found=show(cv)[:60])
+    sends = [1 for p in paths for e in effects_named(p, "Sender::send")]
+    ctx.ob(rule, "constants-not-sent", not sends, where=b.where(), expected="no send in Bdd::new", found=len(sends))
